@@ -76,10 +76,8 @@ Fixpoint flatten (skip : bool) (c : content) : list str :=
   | CNone => []
   | CStr x => if skip && is_nil x then [] else [x]
   | COther x _ => nonempty_singleton x
-  | CList l => (fix go (l : list content) : list str :=
-                  match l with [] => [] | a :: t => flatten skip a ++ go t end) l
-  | CDict l => (fix go (l : list content) : list str :=
-                  match l with [] => [] | a :: t => flatten skip a ++ go t end) l
+  | CList l => flat_map (flatten skip) l
+  | CDict l => flat_map (flatten skip) l
   | CBlock t => nonempty_singleton (str_tb t)
   | CComment ls => nonempty_singleton (str_comment ls)
   end.
